@@ -99,7 +99,8 @@ def field_mentions(facts, adt, fidx, skip_aggregates=True):
     return out
 
 
-def container_mutations(facts, adt, fidx, exclude_fns=(), allowed_suffixes=("::push", "::push_back", "::reserve", "::reserve_exact", "::shrink_to_fit", "::extend", "::extend_one")):
+def container_mutations(facts, adt, fidx, exclude_fns=(), allowed_suffixes=("::push", "::push_back", "::reserve", "::reserve_exact", "::shrink_to_fit", "::extend", "::extend_one"),
+                        allow_local=False):
     """Uses of `&mut <adt>.field#fidx` (the guards container) outside `exclude_fns` that are not a plain append:
     (fn path, callee or 'assignment', line). Removing, reordering or replacing elements of the container outside the
     teardown drops a restore guard out of order."""
@@ -143,7 +144,8 @@ def container_mutations(facts, adt, fidx, exclude_fns=(), allowed_suffixes=("::p
                     if o.get("k") in ("move", "copy") and not o["place"]["p"] and o["place"]["l"] in borrowed:
                         c = t["callee"]
                         name = (c.get("resolved") or c)["path"] if c["k"] == "def" else "<indirect>"
-                        if not any(name.endswith(sfx) for sfx in allowed_suffixes):
+                        local_ok = allow_local and c["k"] == "def" and facts.body(name) is not None
+                        if not any(name.endswith(sfx) for sfx in allowed_suffixes) and not local_ok:
                             out.append((b["path"], name, t["span"]["line"] if t.get("span") else 0))
             if t["k"] == "drop" and is_container(t["place"]):
                 out.append((b["path"], "drop", 0))
